@@ -73,6 +73,13 @@ CLAIMED = {
         "the GlobalOffset conversions are checked exhaustively for every generated genome.",
         "Holds on the explored region only. In-memory (Full) variants; streamed variants are C11/C12. The per-chromosome model is the one validated in C08.",
         "Hypothesis generation, reference-model oracle (per-chromosome restriction) + exhaustive bijection check per genome"),
+    "C11": (
+        "Exhaustive over all 2^(n-1) chunkings of n sorted entries (n = 8 quick, 10 thorough) for twelve computations on ten deterministic "
+        "datasets (mean, bincount, histogram with edges / with range, count_kmers, groupby, chunk_entries, and per-chromosome pipelines evaluated "
+        "with bnp.compute: pileup records, mask sum, pileup sum, pileup histogram, window column mean), plus Hypothesis datasets of up to 200 "
+        "entries with sampled cut sets; each streamed value is compared with an independent Python computation and the in-memory path.",
+        "Holds on the explored region; for the listed n every chunking is covered. Streams are built from in-memory tables split at the cut positions (file-level chunking is C01).",
+        "exhaustive enumeration of chunkings + Hypothesis sampling, differential/metamorphic oracle (streamed == in-memory == Python model)"),
     "C13": (
         "Exhaustive over every list of up to 2 rows of length 0..4 (3 rows of length 0..3) on a two-letter sub-alphabet with every window 1..5 "
         "for k-mers (bit-packed and generic paths), minimizers (every k <= w), match_string, motif scores and k-mer counts; Hypothesis for five "
